@@ -8,6 +8,22 @@ ROOT = os.path.dirname(os.path.dirname(os.path.abspath(__file__)))
 props = [json.loads(l) for l in open(os.path.join(ROOT, "properties.jsonl"))]
 
 CHECKS = {
+    "C04": dict(
+        text="Sealed.tla: stored files as sequences of sealed messages (whole-file messages; packs = blob messages + header + "
+             "unauthenticated length), adversary actions flip / truncate / extend / substitute / remove, the library's readers "
+             "(whole-file read; blob window through the index): Authentic, Detected, NonceFresh hold when readers verify file name and "
+             "blob id and without substitution; with the library's readers substitution violates Authentic (negative control = the "
+             "recorded known findings). Keys.tla: key files, sessions, add / remove / open. Real side: the sealing primitive through a "
+             "cfg-gated hook under EVERY single-bit flip and truncation for many message lengths, nonce draws, two-way interoperability "
+             "with an independent implementation; marker-laden repositories: every file ever written scanned for plaintext, decoded "
+             "independently, nonces collected; every stored file x fault grid with the affected reads classified (SealedTrace.tla: "
+             "NoPlain, NonceFresh, Authentic, Detected); behaviours of Keys.tla replayed with scrypt key files (KeysTrace.tla: OnlyRight "
+             "in both directions).",
+        note="Two known findings (substitution of snapshot/index files, substitution of same-layout packs are not detected by reads; "
+             "check --read-data detects both). Cryptographic strength of AES-CTR/Poly1305 and scrypt is assumed, not verified; nonce "
+             "randomness is judged by distinctness and per-byte diversity.",
+        technique="TLC model of sealed storage + adversary + readers; TLC trace validation of exhaustive primitive tampering, storage scans and tamper grids; replay of Keys.tla behaviours",
+        design="4/C04"),
     "C05": dict(
         text="Check.tla: abstract repository (used data pack with an unused blob, tree pack, root-tree-only pack, unreferenced pack, "
              "index, snapshots) x every single-file damage kind; VerdictD (the algorithm of check --read-data) = clean implies "
